@@ -54,7 +54,7 @@ def main():
         else:
             eng = engines.get_engine(args.property)
             budget = os.environ.get("VERIF_BUDGET_S")
-            budget = float(budget) if budget else (600.0 if args.tier == "thorough" else 100.0)
+            budget = float(budget) if budget else (600.0 if args.tier == "thorough" else 160.0)
             n = args.runs or eng.runs(args.tier)
             rc = harness.check_property(eng, args.tier, args.seed, n, args.jobs, budget_s=budget,
                                         write_evidence=not args.no_evidence)
